@@ -340,6 +340,51 @@ def b2(run, tu):
     run.ob('B2/lib-integer-constants-go-through-the-check', 'lib_build_and_cache_attr', 'realize_global_int(types_builder, index)', ok, tu.where(la))
 
 
+def g6(run):
+    """a struct is checked against the compiler unless *its own* declaration says `...`: the parser's "a `[...]` length was seen" flag is
+    an instance attribute also set while parsing global arrays and typedefs, so whoever reads it has to reset it first, on every path"""
+    m = cffi_mod('cparser')
+    flag = None
+    readers = []
+    for q, fn in sorted(m.defs.items()):
+        if not isinstance(fn, ast.FunctionDef):
+            continue
+        for n in ast.walk(fn):
+            if isinstance(n, (ast.If, ast.While, ast.IfExp)) and m.enclosing_def(n) is fn:
+                for x in ast.walk(n.test):
+                    if isinstance(x, ast.Attribute) and x.attr == '_partial_length' and isinstance(x.ctx, ast.Load):
+                        readers.append((q, fn, n))
+    run.need(readers, 'cparser: no reader of the partial-length flag found (the mechanism changed: review G6)')
+    for q, fn, reader in readers:
+        # the statement list that contains the reader, and what precedes it there
+        parent = m.parents.get(reader)
+        block = None
+        for fld in ('body', 'orelse', 'finalbody'):
+            if isinstance(getattr(parent, fld, None), list) and reader in getattr(parent, fld):
+                block = getattr(parent, fld)
+        run.need(block is not None, '%s: the reader of the flag is not a statement of a block' % q)
+        before = block[:block.index(reader)]
+        reset_at = None
+        for i, st in enumerate(before):
+            if isinstance(st, ast.Assign) and any(u(t) == 'self._partial_length' for t in st.targets) and isinstance(st.value, ast.Constant) and st.value.value is False:
+                reset_at = i
+        producers = [st for st in (before[reset_at + 1:] if reset_at is not None else []) if any(isinstance(c, ast.Call) and any(k.arg == 'partial_length_ok' for k in c.keywords) for c in ast.walk(st))]
+        run.ob('G6/partial-length-flag-reset-before-it-is-read', q, 'self._partial_length = False ... partial_length_ok=True ... if self._partial_length', reset_at is not None and bool(producers), m.where(reader),
+               'the flag is read without having been reset in the same block: a `[...]` array or typedef declared earlier (even in another cdef() call) leaves it set, '
+               'the next struct becomes partial and its layout is no longer compared with the compiler\'s')
+        # and nothing the reader guards may be the only reset
+    setters = [n for n in ast.walk(m.tree) if isinstance(n, ast.Assign) and any(u(t) == 'self._partial_length' for t in n.targets) and isinstance(n.value, ast.Constant) and n.value.value is True]
+    run.ob('G6/flag-set-only-where-a-partial-length-is-allowed', 'Parser._parse_constant', '; '.join(sorted({m.where(x) for x in setters})),
+           bool(setters) and all(any(isinstance(p_, ast.If) and 'partial_length_ok' in u(p_.test) for p_ in _ancestors(m, x)) for x in setters), 'src/cffi/cparser.py')
+
+
+def _ancestors(m, n):
+    p = m.parents.get(n)
+    while p is not None:
+        yield p
+        p = m.parents.get(p)
+
+
 def check(run):
     run.explanation = (
         'Presence-and-wiring rules. Generated code of the probe corpus (structs: complete, partial, packed, bit-fields, '
@@ -360,6 +405,7 @@ def check(run):
     b1(run, tu)
     b2(run, tu)
     b3(run, tu)
+    g6(run)
     run.min_instances('B3', 12)
     run.min_instances('G1/check-flag-iff-fully-declared', 20)
     run.min_instances('G1/field-offset-and-size-taken-from-the-compiler', 30)
@@ -367,4 +413,5 @@ def check(run):
     run.min_instances('G5', 14)
     run.min_instances('B1', 9)
     run.min_instances('B2', 4)
+    run.min_instances('G6', 2)
     run.assume('that calls return what C returns and that addresses are the compiler\'s is true by construction of the generated wrappers and not decided here')
